@@ -23,6 +23,72 @@
 #include <signal.h>
 #include <filesystem>
 #include "cryptoki.h"
+#include <dlfcn.h>
+#include <sys/wait.h>
+#include <sys/stat.h>
+#include <fcntl.h>
+#include <stdarg.h>
+#include <errno.h>
+#include <stdio_ext.h>
+
+// ---- file-system interposition (C16 crash points, C05 fault injection) -----------------------------------------------------------
+// The library is linked statically into this executable, so its calls to the libc entry points below bind to these definitions.
+// While `fsArmed` every call is counted; the fsCrashAt-th call ends the process on the spot with _exit (no stdio flush: the kernel state
+// is exactly what a SIGKILL at that instant leaves); the fsFailAt-th call fails the way a full or broken disk makes it fail.
+static volatile long fsCount = 0; static volatile int fsArmed = 0; static long fsCrashAt = 0, fsFailAt = 0;
+static char fsLog[131072]; static size_t fsLogLen = 0;
+static void fsNote(const char* what) { if (fsLogLen + strlen(what) + 2 < sizeof fsLog) { memcpy(fsLog + fsLogLen, what, strlen(what)); fsLogLen += strlen(what); fsLog[fsLogLen++] = ','; fsLog[fsLogLen] = 0; } }
+// returns 1 when this call has to fail
+static int fsTick(const char* what) {
+	if (!fsArmed) return 0;
+	long n = ++fsCount; fsNote(what);
+	if (fsCrashAt && n == fsCrashAt) _exit(137);
+	return (fsFailAt && n == fsFailAt) ? 1 : 0;
+}
+template <typename F> static F realfn(const char* name) { return (F)dlsym(RTLD_NEXT, name); }
+extern "C" {
+int open(const char* path, int flags, ...) {
+	mode_t mode = 0; if (flags & O_CREAT) { va_list ap; va_start(ap, flags); mode = (mode_t)va_arg(ap, int); va_end(ap); }
+	static auto real = realfn<int (*)(const char*, int, ...)>("open");
+	if ((flags & (O_WRONLY | O_RDWR | O_CREAT | O_TRUNC)) && fsTick("open")) { errno = ENOSPC; return -1; }
+	return real(path, flags, mode);
+}
+size_t fwrite(const void* p, size_t sz, size_t n, FILE* f) {
+	static auto real = realfn<size_t (*)(const void*, size_t, size_t, FILE*)>("fwrite");
+	if (f != stdout && f != stderr && fsTick("fwrite")) { errno = ENOSPC; return 0; }
+	return real(p, sz, n, f);
+}
+int fflush(FILE* f) {
+	static auto real = realfn<int (*)(FILE*)>("fflush");
+	if (f && f != stdout && f != stderr && fsTick("fflush")) { __fpurge(f); errno = ENOSPC; return EOF; }
+	return real(f);
+}
+int fclose(FILE* f) {
+	static auto real = realfn<int (*)(FILE*)>("fclose");
+	if (f != stdout && f != stderr && fsTick("fclose")) { __fpurge(f); real(f); errno = EIO; return EOF; }
+	return real(f);
+}
+int ftruncate(int fd, off_t len) {
+	static auto real = realfn<int (*)(int, off_t)>("ftruncate");
+	if (fsTick("ftruncate")) { errno = EIO; return -1; }
+	return real(fd, len);
+}
+int remove(const char* path) {
+	static auto real = realfn<int (*)(const char*)>("remove");
+	if (fsTick("remove")) { errno = EIO; return -1; }
+	return real(path);
+}
+int mkdir(const char* path, mode_t mode) {
+	static auto real = realfn<int (*)(const char*, mode_t)>("mkdir");
+	if (fsTick("mkdir")) { errno = ENOSPC; return -1; }
+	return real(path, mode);
+}
+int rmdir(const char* path) {
+	static auto real = realfn<int (*)(const char*)>("rmdir");
+	if (fsTick("rmdir")) { errno = EIO; return -1; }
+	return real(path);
+}
+}
 
 typedef std::vector<unsigned char> Bytes;
 static FILE* out = stdout;
@@ -30,7 +96,7 @@ static std::map<long, std::vector<CK_ULONG> > results;   // op number -> handles
 static long opNo = 0;
 static CK_ULONG maxHandleSeen = 0;
 static std::string gOpsFile, gSelf;       // for `reexec`
-static std::istream* gIn = NULL;
+extern size_t gPos;
 #include <sys/stat.h>
 
 static std::string hex(const unsigned char* p, size_t n) {
@@ -229,10 +295,10 @@ static void run(const std::vector<std::string>& t) {
 		// a NEW PROCESS continues the trace on the same token directory: this one is replaced (no C_Finalize unless the trace called it).
 		// The handle-reference table and the position in the op file are carried over in a state file.
 		const char* td = getenv("VERIF_TOKENDIR");
-		if (!td || gOpsFile.empty() || !gIn) { fprintf(out, "= BADOP\n"); return; }
+		if (!td || gOpsFile.empty()) { fprintf(out, "= BADOP\n"); return; }
 		std::string sf = std::string(td) + ".reexec";
 		{ std::ofstream o(sf.c_str());
-		  o << (long long)gIn->tellg() << " " << opNo << " " << results.size() << "\n";
+		  o << (long long)gPos << " " << opNo << " " << results.size() << "\n";
 		  for (auto& kv : results) { o << kv.first << " " << kv.second.size(); for (CK_ULONG v : kv.second) o << " " << v; o << "\n"; } }
 		fprintf(out, "= 0\n"); fflush(out);
 		execl(gSelf.c_str(), gSelf.c_str(), gOpsFile.c_str(), "--resume", sf.c_str(), (char*)NULL);
@@ -520,25 +586,66 @@ static void onSignal(int sig) {
 	_exit(70);
 }
 
+static std::vector<std::string> gLines; size_t gPos = 0;
+static void runLine(const std::string& line) {
+	std::vector<std::string> t; { std::stringstream ss(line); std::string w; while (ss >> w) t.push_back(w); }
+	if (t.empty()) return;
+	fprintf(out, "%s\n", line.c_str()); fflush(out);
+	run(t);
+	fflush(out);
+}
+static bool isOp(const std::string& line) { return !(line.empty() || line[0] == '#'); }
+
 int main(int argc, char** argv) {
 	std::istream* in = &std::cin; static std::ifstream f;
 	if (argc > 1 && strcmp(argv[1], "-") != 0) { f.open(argv[1]); if (!f) { fprintf(stderr, "cannot open %s\n", argv[1]); return 2; } in = &f; gOpsFile = argv[1]; }
 	{ char buf[4096]; ssize_t n = readlink("/proc/self/exe", buf, sizeof buf - 1); if (n > 0) { buf[n] = 0; gSelf = buf; } }
-	gIn = in;
 	signal(SIGSEGV, onSignal); signal(SIGBUS, onSignal); signal(SIGFPE, onSignal); signal(SIGABRT, onSignal); signal(SIGILL, onSignal);
 	setvbuf(out, NULL, _IOLBF, 0);
+	{ std::string line; while (std::getline(*in, line)) gLines.push_back(line); }
 	if (argc > 3 && strcmp(argv[2], "--resume") == 0) {
-		std::ifstream sf(argv[3]); long long off = 0; size_t n = 0; sf >> off >> opNo >> n;
+		std::ifstream sf(argv[3]); long long pos = 0; size_t n = 0; sf >> pos >> opNo >> n;
 		for (size_t i = 0; i < n; i++) { long k; size_t m; sf >> k >> m; std::vector<CK_ULONG>& v = results[k]; for (size_t j = 0; j < m; j++) { CK_ULONG x; sf >> x; v.push_back(x); } }
-		f.clear(); f.seekg(off);
+		gPos = (size_t)pos;
 	}
-	std::string line;
-	while (std::getline(*in, line)) {
+	while (gPos < gLines.size()) {
+		std::string line = gLines[gPos++];
 		if (line.rfind("#trace", 0) == 0) { fprintf(out, "%s\n", line.c_str()); fflush(out); opNo = 0; results.clear(); continue; }
-		if (line.empty() || line[0] == '#') continue;
+		if (!isOp(line)) continue;
 		opNo++;
 		std::vector<std::string> t; { std::stringstream ss(line); std::string w; while (ss >> w) t.push_back(w); }
 		if (t.empty()) continue;
+		if (t[0] == "forkrun" && t.size() >= 2) {
+			// forkrun dry | crash <k> | fail <k>: the NEXT op runs in a forked child (with the file-system schedule armed); the child ends without
+			// C_Finalize; this process skips that op and keeps its own library state (the caller restores the directory before going on)
+			fprintf(out, "%s\n= 0\n", line.c_str()); fflush(out);
+			while (gPos < gLines.size() && !isOp(gLines[gPos])) gPos++;
+			std::string next = gPos < gLines.size() ? gLines[gPos++] : std::string("nop");
+			opNo++;
+			pid_t pid = fork();
+			if (pid == 0) {
+				fsCount = 0; fsLogLen = 0; fsLog[0] = 0; fsCrashAt = fsFailAt = 0;
+				if (t[1] == "crash" && t.size() > 2) fsCrashAt = atol(t[2].c_str());
+				if (t[1] == "fail" && t.size() > 2) fsFailAt = atol(t[2].c_str());
+				fsArmed = 1;
+				runLine(next);
+				fsArmed = 0;
+				fprintf(out, "fsops\n= %ld %s\n", (long)fsCount, fsLogLen ? fsLog : "-"); fflush(out);
+				_exit(0);
+			}
+			int st = 0; waitpid(pid, &st, 0);
+			fprintf(out, "forkdone\n= %d\n", WIFEXITED(st) ? WEXITSTATUS(st) : 1000 + WTERMSIG(st)); fflush(out);
+			continue;
+		}
+		if (t[0] == "recover" && t.size() >= 2) {
+			// a FRESH process (exec) runs the given op file on the same token directory; its transcript goes to the same output
+			fprintf(out, "%s\n= 0\n", line.c_str()); fflush(out);
+			pid_t pid = fork();
+			if (pid == 0) { execl(gSelf.c_str(), gSelf.c_str(), t[1].c_str(), (char*)NULL); _exit(3); }
+			int st = 0; waitpid(pid, &st, 0);
+			fprintf(out, "recoverdone\n= %d\n", WIFEXITED(st) ? WEXITSTATUS(st) : 1000 + WTERMSIG(st)); fflush(out);
+			continue;
+		}
 		fprintf(out, "%s\n", line.c_str()); fflush(out);
 		run(t);
 		fflush(out);
